@@ -7,7 +7,7 @@ from fractions import Fraction
 
 from . import e7_rainir as R
 from .core import AnchorError, Unsupported
-from .e1_srcmodel import dotted, walk_no_nested
+from .e1_srcmodel import dotted, walk_no_nested, utext
 
 CFILE = "pyyeti/rainflow/c_rain.c"
 PYFILE = "pyyeti/rainflow/py_rain.py"
@@ -460,7 +460,7 @@ def r7_selection(ctx):
         raise AnchorError("cyclecount: c_rain import block not found")
     # py_rain.rainflow entry
     fn = ctx.src.func(PYFILE, "rainflow")
-    txt = ast.unparse(fn).replace(" ", "")
+    txt = utext(fn)
     ok = "L=peaks.sizeifpeaks.ndim==1else0" in txt and "ifL<2:" in txt and "raiseValueError" in txt
     ctx.check(ok, "py_rain.rainflow: L = size of a 1-d vector else 0; L < 2 is refused", fn)
     ok = "ifgetoffsets:return_rainflow2(peaks,L)" in txt.replace("\n", "") and "return_rainflow1(peaks,L)" in txt
@@ -524,7 +524,7 @@ def r8_buffers(ctx):
     S = _load(ctx)
     for nm in ("_rainflow1", "_rainflow2"):
         d = S.py[nm]
-        al = {k: ast.unparse(v).replace(" ", "") for k, v in d["allocs"].items()}
+        al = {k: utext(v) for k, v in d["allocs"].items()}
         ok = al.get("pts") == "np.empty(L)" and al.get("rf") == "np.empty((L-1,3))"
         if nm.endswith("2"):
             ok = ok and al.get("cycle_index") in ("np.empty(L,np.int64)",) and al.get("os") == "np.empty((L-1,2),np.int64)"
